@@ -291,7 +291,7 @@ func TestC19Headers(t *testing.T) {
 				} else {
 					f.Key = rapid.OneOf(rapid.SampledFrom([]string{"Content-Type", "content-type", "X-Account-ID", "host", "SOAPAction"}), rapid.StringMatching(`[A-Za-z0-9_.-]{1,10}`)).Draw(t, "k")
 				}
-				f.Val = strings.TrimSpace(rapid.OneOf(rapid.SampledFrom([]string{"1", "a:b", "Token x y", "http://h:80/p?q", "é"}), rapid.StringMatching(`[!-~][ -~]{0,10}[!-~]`)).Draw(t, "v"))
+				f.Val = strings.TrimSpace(rapid.OneOf(rapid.SampledFrom([]string{"1", "a:b", "Token x y", "http://h:80/p?q", "é", "\"etag\"", "W/\"x\"", "'q'", "`raw`", "\"a\\tb\"", "','"}), rapid.StringMatching(`[!-~][ -~]{0,10}[!-~]`)).Draw(t, "v"))
 				keys = append(keys, f.Key)
 				sp := func(l string) string { return rapid.SampledFrom([]string{"", " ", "  ", "\t"}).Draw(t, l) }
 				f.Text = sp("a") + f.Key + sp("b") + ":" + sp("c") + f.Val + sp("d")
